@@ -79,7 +79,7 @@ def c02(chk, tier):
         "(intervals with start and length) into disambiguate_matching; records with contention "
         "go through load+classify. B: TLC judges NoBlockingPair / storm-optimality of what the "
         "code recorded on random records and field data. non-trivial = instance with contention")
-    for ns, nr, mp_ in ((2, 2, 2), (2, 3, 1), (3, 2, 1)) if q else ((2, 2, 3), (2, 3, 2), (3, 2, 2)):
+    for ns, nr, mp_ in ((2, 2, 2), (2, 3, 1)) if q else ((2, 2, 3), (2, 3, 2), (3, 2, 2)):
         MM.replay_matching(chk, "MCMatching %dx%d prefs 0..%d" % (ns, nr, mp_),
                            {"NS": str(ns), "NR": str(nr), "MaxPref": str(mp_), "Geo": "FALSE",
                             "MaxStart": "0", "MaxLen": "1", "Emit": "TRUE"}, geo=False)
@@ -87,7 +87,7 @@ def c02(chk, tier):
         MM.replay_matching(chk, "MCMatching geometric %dx%d" % (ns, nr),
                            {"NS": str(ns), "NR": str(nr), "MaxPref": "0", "Geo": "TRUE",
                             "MaxStart": str(ms), "MaxLen": str(ml), "Emit": "TRUE"}, geo=True)
-    CC.replay_emitted(chk, "MCClassify {0,5}x{0,5}", consts(8 if q else 10, 2, "{0, 5}", "IncFlatFast"),
+    CC.replay_emitted(chk, "MCClassify {0,5}x{0,5}", consts(7 if q else 10, 2, "{0, 5}", "IncFlatFast"),
                       ["StableAtEnd", "OptimalAtEnd", "Progress"], [], PRES[:1] if q else PRES[:2],
                       CC.KEYS["C02"], nontrivial=nt_pairs)
     CC.code_to_spec(chk, 300 if q else 3000, PRES, prefixes=("C02",), max_len=48)
